@@ -143,7 +143,10 @@ def run(repo, chk):
     # U3: information flow census
     n_reads = 0
     for rel in ('hidc/codegen/generator.py',):
-        for n in ast.walk(repo.module(rel)):
+        # the generator's methods in normal form (a new helper that only ever was a statement call is part of its callers
+        # there), every other definition of the module as written
+        roots = list(gf.methods.values()) + [t for t in repo.module(rel).body if not (isinstance(t, ast.ClassDef) and t.name == 'CodeGen')]
+        for n in (x for root in roots for x in ast.walk(root)):
             if isinstance(n, ast.Attribute) and isinstance(n.value, ast.Name) and n.value.id == 'self' \
                     and n.attr in ('unchecked', 'needs_return_protection') and isinstance(n.ctx, ast.Load):
                 n_reads += 1
